@@ -5,6 +5,8 @@ CONSTANTS
   TemplateHasQ = FALSE
   H = 2
   LensKind = "mixed"
+  WithReload = FALSE
+  ReloadBumpsVersion = TRUE
   WithScroll = TRUE
   DelayedSetsVersion <- TreeDelayedSetsVersion
 SPECIFICATION Spec
